@@ -275,9 +275,11 @@ def cases(tier, seed):
         for p, m in combos_r:
             out.append({"id": "reorder:%s:%s:%s" % (fid, p, m), "op": "reorder", "path": r["path"], "member": r.get("member"),
                         "perm": p, "mode": m, "seed": seed, "thorough": T})
+        if not T and r["numGlyphs"] > 1000:
+            combos_s = []      # scale_upem itself needs ~15 s on such a font (visitor over every charstring token)
         for t, m in combos_s:
             out.append({"id": "scale:%s:%s:%s" % (fid, t, m), "op": "scale", "path": r["path"], "member": r.get("member"),
-                        "target": t, "mode": m, "seed": seed, "thorough": T})
+                        "target": t, "mode": m, "seed": seed, "thorough": T, "timeout": 900 if r["numGlyphs"] > 1000 else 300})
     # the two design-time witnesses are always present
     fixed = [("reorder", "fontBuilder/data/test_var.otf.ttx", "transpose", "bin-default"),
              ("reorder", "subset/data/test_math_closure.ttx", "random", "bin-default")]
@@ -460,6 +462,25 @@ def _hb_locations(H, rnd, n):
     return locs
 
 
+def _layout_tags(face):
+    """script / language / feature tags of GSUB and GPOS as HarfBuzz sees them"""
+    out = {}
+    for tag in ("GSUB", "GPOS"):
+        try:
+            scripts = list(face.get_table_script_tags(tag))
+        except Exception:
+            continue
+        t = []
+        for si, sc in enumerate(scripts):
+            langs = list(face.get_script_language_tags(tag, si))
+            entry = [sc, sorted(face.get_language_feature_tags(tag, si, 0xFFFF))]
+            for li, lg in enumerate(langs):
+                entry.append((lg, sorted(face.get_language_feature_tags(tag, si, li))))
+            t.append(entry)
+        out[tag] = t
+    return out
+
+
 def _name_of(order, gid):
     if gid is None:
         return None
@@ -556,6 +577,7 @@ def _compare_reordered(ctx, case, rnd, R0, B1, order0, new, tech, tabs, mode):
     # ---- per glyph name: outline, advances, origins, classes, colour layers ---
     locs = [None] + _hb_locations(H0, rnd, 3 if case.get("thorough") else 2)
     nontrivial = False
+    var_metrics_bad = False
     for li, loc in enumerate(locs):
         h0 = H0 if loc is None else hbft.HB(R0, variations=loc)
         h1 = H1 if loc is None else hbft.HB(B1, variations=loc)
@@ -587,6 +609,8 @@ def _compare_reordered(ctx, case, rnd, R0, B1, order0, new, tech, tabs, mode):
                 bad["v-origin"] += 1
                 first.setdefault("v-origin", (g, a, b, h0.font.get_glyph_v_origin(a), h1.font.get_glyph_v_origin(b)))
         ctx.judged(3)
+        if loc is not None and (bad.get("advance") or bad.get("v-advance") or bad.get("outline")):
+            var_metrics_bad = True
         for k, n in bad.items():
             g, a, b, x, y = first[k]
             m = {"loc": "default" if loc is None else "variation"}
@@ -607,6 +631,9 @@ def _compare_reordered(ctx, case, rnd, R0, B1, order0, new, tech, tabs, mode):
     has_math = f0.has_math_data
     if has_cls != f1.has_layout_glyph_classes or has_col != f1.has_color_layers or has_math != f1.has_math_data:
         viol("table-presence", "GDEF classes / COLR / MATH presence changed")
+    ctx.judged()
+    if _layout_tags(f0) != _layout_tags(f1):
+        viol("layout-tags", "script / language / feature tags of GSUB/GPOS changed")
     for g in order0:
         a, b = idx0[g], idx1[g]
         if has_cls:
@@ -632,10 +659,10 @@ def _compare_reordered(ctx, case, rnd, R0, B1, order0, new, tech, tabs, mode):
     for k, n in bad.items():
         viol(k, "%d glyph names differ in %s; e.g. %r" % (n, k, first[k]), glyph=first[k][0])
     # ---- character map -----------------------------------------------------
-    cps = sorted(f0.unicodes)
-    if sorted(f1.unicodes) != cps:
-        viol("cmap", "set of mapped code points changed: %d -> %d" % (len(cps), len(f1.unicodes)))
-    else:
+    # code points whose glyph id lies outside the font (deliberately broken test cmaps) are not judged
+    ng = H0.glyph_count
+    cps = [cp for cp in sorted(f0.unicodes) if (H0.nominal(cp) or 0) < ng]
+    if True:
         n_bad = 0
         ex = None
         for cp in cps:
@@ -643,9 +670,12 @@ def _compare_reordered(ctx, case, rnd, R0, B1, order0, new, tech, tabs, mode):
             if _name_of(order0, a) != _name_of(new, b):
                 n_bad += 1
                 ex = ex or (cp, _name_of(order0, a), _name_of(new, b))
+        extra_cps = [cp for cp in sorted(f1.unicodes) if (H1.nominal(cp) or 0) < ng and cp not in f0.unicodes]
         ctx.judged()
         if n_bad:
             viol("cmap", "%d code points map to another glyph name; e.g. U+%04X %r -> %r" % (n_bad, ex[0], ex[1], ex[2]))
+        if extra_cps:
+            viol("cmap", "%d code points are mapped that were not before; e.g. U+%04X" % (len(extra_cps), extra_cps[0]))
         for vs in sorted(f0.variation_selectors):
             for cp in sorted(f0.variation_unicodes(vs))[:200]:
                 a, b = H0.variation_glyph(cp, vs), H1.variation_glyph(cp, vs)
@@ -659,6 +689,9 @@ def _compare_reordered(ctx, case, rnd, R0, B1, order0, new, tech, tabs, mode):
     n_active = 0
     for script, features in _shape_configs(feats, scripts):
         for vloc in [None] + (_hb_locations(H0, rnd, 1)[:1] if "fvar" in tabs else []):
+            if vloc is not None and var_metrics_bad:
+                ctx.skip("shaping at a variation location not judged: glyph advances/outlines already differ there")
+                continue
             h0 = H0 if vloc is None else hbft.HB(R0, variations=vloc)
             h1 = H1 if vloc is None else hbft.HB(B1, variations=vloc)
             n_bad, ex = 0, None
@@ -1219,9 +1252,12 @@ def _compare_scaled(ctx, case, rnd, R0, B1, order, tech, tabs, mode, U, U1, T0):
                  table="VORG" if "VORG" in tabs else "vmtx", witness={"glyph": ex[0]})
     # ---- cmap, names ------------------------------------------------------------
     ctx.judged()
-    cps = sorted(H0.face.unicodes)
-    if cps != sorted(H1.face.unicodes) or any(H0.nominal(c) != H1.nominal(c) for c in cps):
+    cps = [c for c in sorted(H0.face.unicodes) if (H0.nominal(c) or 0) < H0.glyph_count]
+    if any(H0.nominal(c) != H1.nominal(c) for c in cps):
         viol("cmap", "character map changed")
+    ctx.judged()
+    if _layout_tags(H0.face) != _layout_tags(H1.face):
+        viol("layout-tags", "script / language / feature tags of GSUB/GPOS changed")
     # ---- fixed-layout metric tables (struct readers) ----------------------------
     comp_budget = 0.5
     if tech == "glyf":
